@@ -565,6 +565,10 @@ def handleStress (kvs : List String) : String :=
   | _, _, _, _, _ => "BAD stress fields"
 
 def handle : List String → String
+  | ["reloc", kind, form, res] =>
+    -- a re-located call (SetRegion after a split or move) names its new region on the wire
+    if res = "ok" then s!"OK tags=reloc,{kind},{form}"
+    else s!"SPEC key=op-region-{res}-after-relocation kind={kind} form={form}"
   | "stress" :: kvs => handleStress kvs
   | "stream" :: codec :: units :: helloTok :: recs => handleStream codec units helloTok recs
   | ["multi", names, calls, perm, obsRA, obsCbs, obsSize] =>
